@@ -1,7 +1,8 @@
 /-
   Oracle.C10 — to-be-closed variables.  Input lines (from harness/cmd/c10):
       <variant> <prog> <handlers> = <impl log>
-  prog:      T<id> | N | Z | M<n> | B(seq) | L<n>(seq) | K | G<k> | R | E<n> | P(seq) | C(seq)
+  prog:      T<id> | N | Z | M<n> | B(seq) | L<n>(seq) | K | G<k> | R | E<n> | P(seq) | C(seq) | V(seq) | Y
+             (V = return (function() seq end)());  F<n>(T<id>|N|Z,seq) = generic for with closing value
              seq = prog,prog,…  (possibly empty)
   handlers:  `-` or id:e[n|s],…  — the handler of value id raises user error e
              (always / only when its 2nd argument is nil (n) / only when it is an error (s))
@@ -39,6 +40,12 @@ partial def parseProg : List Char → Option (Prog × List Char)
   | 'B' :: '(' :: cs => (parseSeq cs []).map fun (ps, r) => (.block (seqOf ps), r)
   | 'P' :: '(' :: cs => (parseSeq cs []).map fun (ps, r) => (.pcall (seqOf ps), r)
   | 'C' :: '(' :: cs => (parseSeq cs []).map fun (ps, r) => (.call (seqOf ps), r)
+  | 'V' :: '(' :: cs => (parseSeq cs []).map fun (ps, r) => (.retCall (seqOf ps), r)
+  | 'F' :: cs => match parseNat cs with
+    | some (n, '(' :: r) => match parseSeq r [] with
+      | some (.tbc v :: ps, r2) => some (Prog.forin v n (seqOf ps), r2)
+      | _ => none
+    | _ => none
   | 'L' :: cs => match parseNat cs with
     | some (n, '(' :: r) => (parseSeq r []).map fun (ps, r2) => (.loop n (seqOf ps), r2)
     | _ => none
@@ -106,6 +113,7 @@ partial def skeleton (c : Code) : List String :=
     | .loop _ c => go c acc
     | .pcall c => (acc.1, acc.2 ++ [c])
     | .call c => (acc.1, acc.2 ++ [c])
+    | .tailcall c => (acc.1 ++ ["tcall"], acc.2 ++ [c])
   let (own, subs) := go c ([], [])
   ["["] ++ own ++ (subs.map skeleton).flatten ++ ["]"]
 
